@@ -8,4 +8,4 @@ Separate Extraction
   tfdt traf mdat frag op oclass dfrag
   create_fragment create_multi with_extras step run_ops encode_frag encoded_len moof_size md_header_size
   set_offsets decoded_view get_full_samples
-  rd32 enc_trun enc_tfhd dec_trun dec_tfhd.
+  rd32 enc_trun enc_tfhd dec_trun dec_tfhd enc_moof.
